@@ -4,7 +4,7 @@ from props.common import *  # noqa: F401,F403
 
 FUNCTIONS = SEARCH_FUNCS + DESIGN_FUNCS
 NATIVE_FUNCTIONS = SEARCH_NATIVES
-LEVEL = "proof"
+LEVEL = "other"
 
 
 def lemmas():
@@ -24,7 +24,7 @@ EXPLANATION = ("Bisection1D.search: invariant 0<=l<r<=r0, both ends evaluated, e
                "i+(r-l)<=r0, r-l<=2^(15-i); postconditions: the selected candidate has the fewest boreholes among all evaluated candidates with negative excess, and for strictly "
                "increasing counts its predecessor was evaluated and fails. BisectionZD.search_successive: the chosen list has the least recorded total drilling and the returned field "
                "is its smallest evaluated feasible candidate (this obligation failed on the pinned tree - defect D14, fixed). GHE.size: root unless clamped (A-BRENT).")
-LEVEL_TEXT = ("Deductive proof for candidate lists of every length (not only 1..64) and every sign pattern: minimal count among evaluated feasible candidates, predecessor evaluated "
+LEVEL_TEXT = ("[level other because RowWiseModifiedBisectionSearch.search, one of the search classes the statement quantifies over, is covered only by a bounded oracle-stubbed run-time contract] Deductive proof for candidate lists of every length (not only 1..64) and every sign pattern: minimal count among evaluated feasible candidates, predecessor evaluated "
               "and failing for strictly increasing counts, least total drilling among visited lists for the nested searches, height a root within solver tolerance unless clamped. "
               "The cross-list product inequality (count x height) of the nested searches is checked by the bounded oracle-stubbed run-time contract.")
 LEVEL_NOTE = "Trusted: pyvc, z3/cvc5, brentq model (A-BRENT), A-NODE, A-HMONO, A-LIP, A-DET, A-REAL; RowWise search only bounded."
